@@ -15,7 +15,7 @@ GET = {'cp': 'get_CpoR', 'h': 'get_HoRT', 's': 'get_SoR', 'g': 'get_GoRT',
 def main():
     p = read_payload()
     out = []
-    libs, dec = {}, {}
+    libs, dec, ests = {}, {}, {}
     with quiet():
         for o in p['cases'][0]['ops']:
             r = {}
@@ -31,6 +31,14 @@ def main():
                         r['d'] = sorted([str(k), float(v)] for k, v in d.items())
                     elif o['op'] == 'eval':
                         est = libs[o['obj']].Estimate(dec[(o['obj'], o['smiles'])], 'thermochem')
+                        kw = {'S_elements': True} if o.get('elements') else {}
+                        fn = getattr(est, GET[o['prop']])
+                        v = fn(o['T'], **kw) if o['prop'] in ('s', 'g') else fn(o['T'])
+                        r['v'] = float(v)
+                    elif o['op'] == 'estimate':
+                        ests[(o['obj'], o['eid'])] = libs[o['obj']].Estimate(dec[(o['obj'], o['smiles'])], 'thermochem')
+                    elif o['op'] == 'evalest':
+                        est = ests[(o['obj'], o['eid'])]
                         kw = {'S_elements': True} if o.get('elements') else {}
                         fn = getattr(est, GET[o['prop']])
                         v = fn(o['T'], **kw) if o['prop'] in ('s', 'g') else fn(o['T'])
